@@ -35,9 +35,14 @@ type Server struct {
 	Dis bool   `json:"dis"`
 }
 
+// UpEnt is one entry of the scripted health table. With Code set it carries what the upstream answers to GET /healthz
+// (HTTP status; -1 hang until the client times out, -2 connection closed, -3 connection refused; BodyOK false: a body other
+// than "ok") and the Lean model decides whether that is healthy (gatewayHealthCheck); H is then the model's decision, cached.
 type UpEnt struct {
-	N string `json:"n"`
-	H bool   `json:"h"`
+	N      string `json:"n"`
+	H      bool   `json:"h"`
+	Code   *int   `json:"code,omitempty"`
+	BodyOK *bool  `json:"body_ok,omitempty"`
 }
 
 // Op is one harness op: "sync" | "status" | "trigger" | "ensure" | "match" | "pop".
@@ -75,9 +80,11 @@ type Ident struct {
 }
 
 type Fired struct {
-	N   string `json:"n"`
-	Gen int    `json:"gen"`
-	H   bool   `json:"h"`
+	N      string `json:"n"`
+	Gen    int    `json:"gen"`
+	H      bool   `json:"h"`
+	Code   *int   `json:"code,omitempty"` // the answer the probe got (end-to-end stream); the model decides what it means
+	BodyOK *bool  `json:"body_ok,omitempty"`
 }
 
 type LbEnt struct {
@@ -201,6 +208,9 @@ type World struct {
 	byPtr   map[*clusters.EndpointInfo]*epRec
 	byAddr  map[string]*epRec // "%p" of the pointer
 	up      map[string]bool
+	answer  map[string]UpEnt // the scripted answer behind `up`, when there is one
+	// DecisionViol: a real probe marked an endpoint healthy although the answer it got is not the healthy answer
+	DecisionViol []string
 	specDis map[string]bool // spec of the last Sync: endpoint -> marked disabled by some entry
 	specIn  map[string]bool
 	fired   []Fired
@@ -216,7 +226,7 @@ type World struct {
 }
 
 func NewWorld() *World {
-	return &World{byPtr: map[*clusters.EndpointInfo]*epRec{}, byAddr: map[string]*epRec{}, up: map[string]bool{},
+	return &World{byPtr: map[*clusters.EndpointInfo]*epRec{}, byAddr: map[string]*epRec{}, up: map[string]bool{}, answer: map[string]UpEnt{},
 		specDis: map[string]bool{}, specIn: map[string]bool{}, Timeout: 10 * time.Second}
 }
 
@@ -242,11 +252,23 @@ func (w *World) healthCheck(e *clusters.EndpointInfo) bool {
 		w.Viol = append(w.Viol, fmt.Sprintf("health probe sent to %s while it is marked disabled", e.Endpoint))
 	}
 	w.mu.Unlock()
+	w.mu.Lock()
+	ans, hasAns := w.answer[e.Endpoint]
+	w.mu.Unlock()
 	if w.HealthFn != nil {
 		w.HealthFn(e)
-		if clusters.VerifEndpointStatus(e).Healthy != h {
+		if actual := clusters.VerifEndpointStatus(e).Healthy; actual != h {
 			w.mu.Lock()
-			w.Inconclusive = true
+			if actual {
+				// load can make a probe fail, never succeed: the real health check accepted an answer the model rejects
+				what := "an unhealthy answer"
+				if hasAns && ans.Code != nil {
+					what = DescribeAnswer(ans)
+				}
+				w.DecisionViol = append(w.DecisionViol, fmt.Sprintf("the probe of %s was answered %s and the endpoint was marked healthy", e.Endpoint, what))
+			} else {
+				w.Inconclusive = true
+			}
 			w.mu.Unlock()
 		}
 	} else if h {
@@ -256,7 +278,11 @@ func (w *World) healthCheck(e *clusters.EndpointInfo) bool {
 	}
 	w.mu.Lock()
 	r.probes++
-	w.fired = append(w.fired, Fired{N: rig.Hex(r.name), Gen: r.gen, H: h})
+	f := Fired{N: rig.Hex(r.name), Gen: r.gen, H: h}
+	if hasAns {
+		f.Code, f.BodyOK = ans.Code, ans.BodyOK
+	}
+	w.fired = append(w.fired, f)
 	w.mu.Unlock()
 	return false
 }
@@ -265,6 +291,11 @@ func (w *World) SetUp(up []UpEnt) {
 	w.mu.Lock()
 	for _, u := range up {
 		w.up[rig.UnHex(u.N)] = u.H
+		if u.Code != nil {
+			w.answer[rig.UnHex(u.N)] = u
+		} else {
+			delete(w.answer, rig.UnHex(u.N))
+		}
 	}
 	w.mu.Unlock()
 }
@@ -553,6 +584,33 @@ func (w *World) DrainFired() []Fired {
 		f = []Fired{}
 	}
 	return f
+}
+
+// DescribeAnswer renders a scripted /healthz answer.
+func DescribeAnswer(u UpEnt) string {
+	if u.Code == nil {
+		return fmt.Sprintf("healthy=%v", u.H)
+	}
+	switch c := *u.Code; {
+	case c == -1:
+		return "no answer (hang until the client's timeout)"
+	case c == -2:
+		return "connection closed without answer"
+	case c == -3:
+		return "connection refused"
+	case u.BodyOK != nil && !*u.BodyOK:
+		return fmt.Sprintf("HTTP %d with body \"not ok\"", c)
+	default:
+		return fmt.Sprintf("HTTP %d", c)
+	}
+}
+
+func (w *World) DrainDecisionViol() []string {
+	w.mu.Lock()
+	v := w.DecisionViol
+	w.DecisionViol = nil
+	w.mu.Unlock()
+	return v
 }
 
 func (w *World) DrainViol() []string {
